@@ -1,5 +1,1176 @@
-"""CLI-level streams: the real release binary (feature off) on generated documents."""
-STREAMS = {}
+"""Streams driven from Python: generated CdE exports / simple instances / malformed documents / output
+faults, run through the real release binary (feature off) or through the in-process runner of the
+harness (`vharness cdedb-read`). Every random choice derives from random.Random(seed)."""
+import json, os, random, subprocess, copy, struct, re, shutil, stat, tempfile, hashlib
+
+STREAMS = {"cdedb-read", "cdedb-pairs", "e2e-cde", "cli-simple", "cli-malformed", "cli-fault"}
+
+VERIF = os.path.dirname(os.path.dirname(os.path.abspath(__file__)))
+HARNESS_EXE = os.path.join(VERIF, "build", "harness-target", "debug", "vharness")
+
+
+def scale(tier, q, t):
+    return t if tier == "thorough" else q
+
+
+def line(kind, props, tag="", payload="", expect="", ok=True, what="", nontrivial=True, feat=(), case=0, stream=""):
+    return {"stream": stream, "case": case, "kind": kind, "props": list(props), "tag": tag, "payload": payload,
+            "expect": expect, "ok": ok, "what": what, "nontrivial": nontrivial, "feat": list(feat)}
+
+
+def f32(x):
+    return struct.unpack("f", struct.pack("f", x))[0]
+
+
+def f32div(a, b):
+    a, b = f32(float(a)), f32(float(b))
+    if b == 0:
+        return float("nan") if a == 0 else float("inf")
+    return f32(a / b)
+
+
+def feq(x, y):
+    import math
+    if x is None or y is None:
+        return False
+    x, y = f32(float(x)), f32(float(y))
+    return (math.isnan(x) and math.isnan(y)) or x == y
+
+
+def quality_matches(what, got):
+    """compare the quality figures the program reported (`what`, JSON) with the model's exact fractions"""
+    try:
+        w = json.loads(what)
+        g = dict(kv.split("=") for kv in got.split(" "))
+        frac = lambda s: f32div(*map(int, s.split("/")))
+        if "q" in w:
+            q = w["q"]
+            return (q.get("solution_score") == int(g["score"]) and q.get("theoretical_max_score") == int(g["max"])
+                    and int(g["max"]) >= int(g["score"])
+                    and feq(q.get("solution_quality"), frac(g["sq"])) and feq(q.get("theoretical_max_quality"), frac(g["mq"]))
+                    and "overall_quality" not in q)
+        return feq(float(w["solution"]), frac(g["sq"])) and feq(float(w["overall"]), frac(g["oq"]))
+    except Exception:
+        return False
+
+
+# --------------------------------------------------------------------------------------------------
+# generators
+
+NAMES = ["Anton", "Berta", "Çağla", "Dörte", "Émile", "Fatima", "Günther", "Hồ", "Ines", "João", "Καλλιόπη", "李"]
+FAMILY = ["Administrator", "Beispiel", "Çelik", "Müller-Lüdenscheidt", "O'Neill", "ß", "Zimmermann", "García"]
+NRS = ["1", "2", "10", "α", "A1", "3b", "11", "Ω-2", "9", "12", "100", "ζ", "1a", "20", ""]
+
+
+def gen_export(r, rich=False):
+    """a partial export + reader options; mostly valid"""
+    part_ids = r.sample([1, 2, 3, 10, 20], r.choice([1, 1, 2, 3]))
+    track_pool = [1, 2, 3, 5, 10, 11, 100]
+    r.shuffle(track_pool)
+    parts = {}
+    tracks = []
+    for pid in part_ids:
+        nt = r.choice([0, 1, 1, 1, 2, 3]) if len(part_ids) > 1 else r.choice([1, 1, 1, 2, 3])
+        tr = {}
+        for _ in range(nt):
+            if track_pool:
+                t = track_pool.pop()
+                tr[str(t)] = {"title": f"Track {t}", "shortname": r.choice(["Morgen", "Kaffee", "Sitzung", "Ü"]) + str(t),
+                              "num_choices": r.choice([1, 2, 3, 4]), "min_choices": 1, "sortkey": t}
+                tracks.append((pid, t))
+        parts[str(pid)] = {"title": f"Part {pid}", "shortname": f"P{pid}", "part_begin": "2222-02-02",
+                           "part_end": "2222-02-03", "waitlist_field": None, "tracks": tr}
+    if not tracks:
+        # make sure there is a track (refusals are generated separately)
+        pid = part_ids[0]
+        parts[str(pid)]["tracks"]["3"] = {"title": "T3", "shortname": "Sitzung", "num_choices": 3, "min_choices": 1, "sortkey": 1}
+        tracks.append((pid, 3))
+    sel_part, sel_track = r.choice(tracks)
+    all_tracks = [t for _, t in tracks]
+    # courses
+    ncourses = r.randint(2, 8)
+    course_ids = r.sample([1, 2, 3, 4, 5, 6, 7, 8, 9, 10, 11, 12, 100], ncourses)
+    courses = {}
+    for cid in course_ids:
+        segs = {}
+        for t in all_tracks:
+            x = r.random()
+            if t == sel_track:
+                if x < 0.7:
+                    segs[str(t)] = True
+                elif x < 0.88:
+                    segs[str(t)] = False
+            elif x < 0.6:
+                segs[str(t)] = r.random() < 0.8
+        c = {"title": f"Kurs {cid}", "description": "…", "nr": r.choice(NRS), "shortname": r.choice(["Heldentum", "Kabarett", "Kurz", "Lang", "Ωmega"]) + str(cid),
+             "instructors": "N.N.", "notes": None, "fields": {}, "segments": segs}
+        mx = r.choice([None, None, 4, 6, 10, "missing"] if rich else [None, None, 0, 1, 2, 3, 4, 6, 10, "missing"])
+        mn = r.choice([None, 0, 0, 1, 2, "missing"] if rich else [None, None, 0, 0, 1, 2, 3, "missing"])
+        if mx != "missing":
+            c["max_size"] = mx
+        if mn != "missing":
+            c["min_size"] = mn
+        if isinstance(c.get("max_size"), int) and isinstance(c.get("min_size"), int) and c["min_size"] > c["max_size"]:
+            c["min_size"] = c["max_size"]
+        if r.random() < 0.6:
+            c["fields"]["room_factor"] = r.choice([1, 1.5, 2, 2.5, 0.5, 1.2, "big", None, 3])
+        if r.random() < 0.5:
+            c["fields"]["room_offset"] = r.choice([0, 1, 2.5, 0.5, -1, "x", 4])
+        c["fields"]["room"] = "Wald"
+        courses[str(cid)] = c
+    # registrations
+    nregs = r.randint(4, 14) if rich else r.randint(1, 12)
+    reg_ids = r.sample([1, 2, 3, 4, 5, 6, 7, 8, 9, 10, 11, 12, 13, 20, 100, 101, 102, 200], nregs)
+    regs = {}
+    for rid in reg_ids:
+        rparts = {}
+        for pid in part_ids:
+            if r.random() < 0.93:
+                st = r.choice([2, 2, 2, 2, 2, 2, 2, 2, 1, 3, -1] if rich else [2, 2, 2, 2, 2, 1, 3, 4, -1, 5, 0]) if pid == sel_part else r.choice([2, 1, -1, 3])
+                rparts[str(pid)] = {"status": st, "lodgement_id": r.choice([None, 1, 2]), "is_camping_mat": False}
+        rtracks = {}
+        for t in all_tracks:
+            k = r.choice([2, 3, 3, 4, 4] if rich else [0, 1, 2, 2, 3, 3, 4])
+            ch = r.sample(course_ids, min(k, len(course_ids)))
+            rtracks[str(t)] = {"course_id": r.choice([None, None, None] + course_ids) if r.random() < (0.3 if rich else 0.5) else None,
+                               "course_instructor": r.choice(course_ids) if r.random() < 0.2 else None,
+                               "choices": ch}
+            if r.random() < 0.3 and rtracks[str(t)]["course_instructor"] is not None:
+                # pre-assigned as instructor of the own course
+                rtracks[str(t)]["course_id"] = rtracks[str(t)]["course_instructor"]
+        regs[str(rid)] = {"notes": None, "parts": rparts, "tracks": rtracks, "fields": {"lodge": "x"},
+                          "persona": {"id": rid, "given_names": r.choice(NAMES), "family_name": r.choice(FAMILY),
+                                      "display_name": "D", "username": f"u{rid}@example.cde", "is_orga": False}}
+    doc = {"EVENT_SCHEMA_VERSION": r.choice([[15, 4], [19, 0], [7, 0], [17, 2], [19, 99]]), "kind": "partial", "id": r.choice([1, 2, 42]),
+           "timestamp": r.choice(["2023-04-23T12:02:09.906237+00:00", "2024-01-01T00:00:00Z", "2025-12-24T23:59:59+01:00"]),
+           "courses": courses, "lodgement_groups": {}, "lodgements": {"1": {"title": "L"}}, "registrations": regs,
+           "event": {"title": "Große Testakademie", "shortname": "TestAka", "parts": parts}}
+    if r.random() < 0.1:
+        del doc["EVENT_SCHEMA_VERSION"]
+        doc["CDEDB_EXPORT_EVENT_VERSION"] = r.choice([7, 12, 19])
+    ntracks = len(all_tracks)
+    opts = {"track": sel_track if (ntracks > 1 or r.random() < 0.5) else None, "ic": r.random() < 0.5, "ia": r.random() < 0.5,
+            "rff": "room_factor" if r.random() < 0.5 else None, "rof": "room_offset" if r.random() < 0.5 else None}
+    return doc, opts, {"sel_part": sel_part, "sel_track": sel_track, "tracks": all_tracks, "parts": part_ids}
+
+
+def corrupt_export(r, doc, opts, info):
+    """one single-field corruption (or a refusal by options); returns a description"""
+    t = str(info["sel_track"])
+    choices = ["kind", "version", "version-old", "no-track-selected", "unknown-track", "timestamp", "del-courses", "del-regs", "del-event",
+               "seg-not-bool", "no-nr", "no-shortname", "min>max", "no-fields", "no-persona", "no-family", "status-str", "no-tracks",
+               "no-regtrack", "dangling-choice", "dangling-assigned", "dangling-instr", "choice-str", "no-choices", "no-id", "no-track-shortname",
+               "regs-array", "course-null", "no-course-id-member", "no-instr-member", "parts-array", "tracks-missing-in-part"]
+    what = r.choice(choices)
+    cs = list(doc["courses"].keys())
+    rs = list(doc["registrations"].keys())
+    participants = [k for k in rs if doc["registrations"][k]["parts"].get(str(info["sel_part"]), {}).get("status") == 2]
+    if what == "kind":
+        doc["kind"] = r.choice(["full", "export", 7, None])
+    elif what == "version":
+        doc.pop("CDEDB_EXPORT_EVENT_VERSION", None)
+        doc["EVENT_SCHEMA_VERSION"] = r.choice([[6, 9], [20, 0], [19], [19, 0, 1], "19.0", [19, "0"], [-1, 0], [19.5, 0]])
+    elif what == "version-old":
+        doc.pop("EVENT_SCHEMA_VERSION", None)
+        doc["CDEDB_EXPORT_EVENT_VERSION"] = r.choice([6, 20, "7", None, 3.5])
+    elif what == "no-track-selected":
+        if len(info["tracks"]) < 2:
+            return None
+        opts["track"] = None
+    elif what == "unknown-track":
+        opts["track"] = 999
+    elif what == "timestamp":
+        doc["timestamp"] = r.choice(["yesterday", None, 17, "2023-13-45T99:99:99+00:00", "", "2023-04-23"])
+    elif what == "del-courses":
+        doc["courses"] = r.choice([None, [], "x"]) if r.random() < 0.5 else doc.pop("courses") and None
+        if doc.get("courses", 0) is None and "courses" in doc and r.random() < 0.5:
+            del doc["courses"]
+    elif what == "del-regs":
+        del doc["registrations"]
+    elif what == "regs-array":
+        doc["registrations"] = list(doc["registrations"].values())
+    elif what == "del-event":
+        doc["event"] = r.choice([None, {}, {"parts": []}, []])
+    elif what == "parts-array":
+        doc["event"]["parts"] = list(doc["event"]["parts"].values())
+    elif what == "tracks-missing-in-part":
+        p = str(min(info["parts"]))
+        del doc["event"]["parts"][p]["tracks"]
+        # whether this is refused depends on the visiting order; the model decides, no oracle claim
+        return "tracks-missing-in-part?"
+    elif what == "seg-not-bool":
+        c = r.choice(cs)
+        doc["courses"][c]["segments"][t] = r.choice([1, "true", None, 0])
+    elif what == "no-nr":
+        c = r.choice(cs)
+        doc["courses"][c]["nr"] = r.choice([None, 7])
+    elif what == "no-shortname":
+        del doc["courses"][r.choice(cs)]["shortname"]
+    elif what == "min>max":
+        c = r.choice(cs)
+        doc["courses"][c]["min_size"] = 5
+        doc["courses"][c]["max_size"] = 4
+    elif what == "no-fields":
+        kept = [c for c in cs if t in doc["courses"][c]["segments"] and (doc["courses"][c]["segments"][t] or not opts["ic"])]
+        if not kept:
+            return None
+        c = r.choice(kept)
+        doc["courses"][c]["fields"] = r.choice([None, [], "f"])
+    elif what == "course-null":
+        doc["courses"][r.choice(cs)] = r.choice([None, 3, []])
+    elif what == "no-persona":
+        del doc["registrations"][r.choice(rs)]["persona"]
+    elif what == "no-family":
+        doc["registrations"][r.choice(rs)]["persona"]["family_name"] = r.choice([None, 5])
+    elif what == "status-str":
+        k = r.choice(rs)
+        p = str(info["sel_part"])
+        if p not in doc["registrations"][k]["parts"]:
+            return None
+        doc["registrations"][k]["parts"][p]["status"] = r.choice(["2", None, 2.5])
+    elif what == "no-tracks":
+        if not participants:
+            return None
+        doc["registrations"][r.choice(participants)]["tracks"] = r.choice([None, []])
+    elif what == "no-regtrack":
+        if not participants:
+            return None
+        del doc["registrations"][r.choice(participants)]["tracks"][t]
+    elif what in ("dangling-choice", "dangling-assigned", "dangling-instr", "choice-str", "no-choices", "no-course-id-member", "no-instr-member"):
+        if not participants:
+            return None
+        rt = doc["registrations"][r.choice(participants)]["tracks"][t]
+        if what == "dangling-choice":
+            rt["choices"] = rt["choices"] + [9999]
+        elif what == "dangling-assigned":
+            rt["course_id"] = 9999
+        elif what == "dangling-instr":
+            rt["course_instructor"] = 9999
+        elif what == "choice-str":
+            rt["choices"] = rt["choices"] + [r.choice(["3", None, 2.5, -1])]
+        elif what == "no-choices":
+            rt["choices"] = r.choice([None, {}, "x"])
+        elif what == "no-course-id-member":
+            del rt["course_id"]
+        else:
+            del rt["course_instructor"]
+    elif what == "no-id":
+        doc["id"] = r.choice([None, "1", -4])
+    elif what == "no-track-shortname":
+        doc["event"]["parts"][str(info["sel_part"])]["tracks"][t]["shortname"] = r.choice([None, 5])
+    return what
+
+
+def irrelevant_edits(r, doc, opts, info):
+    """C13: edits that must not matter (other tracks / parts, lodgement and persona data, and — without
+    the corresponding ignore option — course_id values and true/false segment flags of the selected track)"""
+    d = copy.deepcopy(doc)
+    t = str(info["sel_track"])
+    sp = str(info["sel_part"])
+    cs = [int(c) for c in d["courses"].keys()]
+    n = r.randint(1, 10)
+    done = []
+    for _ in range(n):
+        k = r.choice(["other-track-reg", "other-part-status", "other-seg", "lodgement", "persona", "course_id", "segflag", "event-meta", "course-meta"])
+        regs = list(d["registrations"].values())
+        reg = r.choice(regs)
+        if k == "other-track-reg":
+            others = [x for x in reg["tracks"].keys() if x != t]
+            if others:
+                o = r.choice(others)
+                reg["tracks"][o] = {"course_id": r.choice([None] + cs), "course_instructor": r.choice([None] + cs),
+                                    "choices": r.sample(cs, r.randint(0, len(cs)))}
+                done.append(k)
+        elif k == "other-part-status":
+            others = [x for x in reg["parts"].keys() if x != sp]
+            if others:
+                reg["parts"][r.choice(others)]["status"] = r.choice([-1, 1, 2, 3, 4])
+                done.append(k)
+        elif k == "other-seg":
+            c = r.choice(list(d["courses"].values()))
+            others = [str(x) for x in info["tracks"] if str(x) != t]
+            if others:
+                o = r.choice(others)
+                if r.random() < 0.3 and o in c["segments"]:
+                    del c["segments"][o]
+                else:
+                    c["segments"][o] = r.random() < 0.5
+                done.append(k)
+        elif k == "lodgement":
+            d["lodgements"][str(r.randint(1, 5))] = {"title": "neu"}
+            for p in reg["parts"].values():
+                p["lodgement_id"] = r.choice([None, 1, 2, 3])
+            done.append(k)
+        elif k == "persona":
+            reg["persona"]["display_name"] = r.choice(NAMES)
+            reg["persona"]["username"] = "x@example.cde"
+            reg["fields"]["lodge"] = "y"
+            done.append(k)
+        elif k == "course_id" and not opts["ia"]:
+            if t in reg["tracks"]:
+                reg["tracks"][t]["course_id"] = r.choice([None] + cs)
+                done.append(k)
+        elif k == "segflag" and not opts["ic"]:
+            c = r.choice(list(d["courses"].values()))
+            if t in c["segments"]:
+                c["segments"][t] = not c["segments"][t]
+                done.append(k)
+        elif k == "event-meta":
+            d["event"]["title"] = "anders"
+            d["event"]["parts"][sp]["title"] = "umbenannt"
+            done.append(k)
+        elif k == "course-meta":
+            c = r.choice(list(d["courses"].values()))
+            c["title"] = "neu"
+            c["description"] = "neu"
+            c["fields"]["room"] = "Halle"
+            done.append(k)
+    return d, done
+
+
+def gen_simple(r, rooms_mode=1, big=False):
+    """a valid simple-format instance (C01's validity conditions) with names"""
+    nc = r.randint(1, 7 if big else 5)
+    np_ = r.randint(1, 12 if big else 8)
+    shape = r.choice([0, 0, 0, 0, 1, 1, 2, 3])   # 0 comfortable, 1 generic, 2 tight / over-subscribed, 3 zero-size courses
+    courses = []
+    for i in range(nc):
+        mx = r.choice({0: [3, 4, 6, 8, 10], 2: [0, 1, 1, 2, 2], 3: [0, 0, 1, 2, 4]}.get(shape, [0, 1, 2, 2, 3, 4, 6]))
+        mn = (r.choice([0, 0, 1, 1, 2]) if shape == 0 else (mx if r.random() < 0.2 else r.randint(0, mx)))
+        mn = min(mn, mx)
+        c = {"name": r.choice(["Kurs", "Çay", "Ωmega", "Tanz"]) + f" {i}", "num_max": mx, "num_min": mn, "instructors": []}
+        if r.random() < 0.5:
+            c["room_factor"] = r.choice([1.0, 1.5, 2.0, 2.5, 0.5, 1.2])
+        if r.random() < 0.4:
+            c["room_offset"] = r.choice([0.0, 1.0, 2.5, 0.5])
+        if r.random() < 0.2:
+            c["fixed_course"] = True
+        if r.random() < 0.25:
+            c["hidden_participant_names"] = [r.choice(NAMES) + " (hidden)" for _ in range(r.randint(1, 3))]
+        courses.append(c)
+    parts = []
+    for i in range(np_):
+        k = min(r.choice([0, 2, 2, 3, 3, 3] if shape == 0 else [0, 1, 1, 2, 2, 3]), nc)
+        ch = r.sample(range(nc), k)
+        style = r.randrange(4)
+        parts.append({"name": r.choice(NAMES) + " " + r.choice(FAMILY) + f" {i}",
+                      "choices": [{"course": c, "penalty": (r.randrange(4) if style == 0 else j)} for j, c in enumerate(ch)]})
+    if all(not p["choices"] for p in parts):
+        parts[0]["choices"] = [{"course": r.randrange(nc), "penalty": 0}]
+    for i in range(np_):
+        if r.random() < 0.3:
+            c = r.choice(courses)
+            c["instructors"].append(i)
+    for c in courses:
+        r.shuffle(c["instructors"])
+    rooms = None
+    if rooms_mode == 2 or (rooms_mode == 1 and r.random() < 0.5):
+        n = r.randint(1, nc + 2)
+        rooms = [r.choice([0, 1, 2, 3, 4, 5, 6, 8, 10, 20] if r.random() < 0.5 else [6, 8, 10, 20, 30]) for _ in range(n)]
+    return {"format": "X-coursedata-simple", "version": "1.0", "participants": parts, "courses": courses}, rooms
+
+
+# --------------------------------------------------------------------------------------------------
+# helpers
+
+def run_bin(binary, args, timeout=20, stdin=None):
+    try:
+        p = subprocess.run([binary] + args, stdout=subprocess.PIPE, stderr=subprocess.PIPE, timeout=timeout,
+                           env=dict(os.environ, RUST_LOG="info"), input=stdin)
+        return p.returncode, p.stdout.decode("utf-8", "replace"), p.stderr.decode("utf-8", "replace"), False
+    except subprocess.TimeoutExpired as e:
+        return None, (e.stdout or b"").decode("utf-8", "replace"), (e.stderr or b"").decode("utf-8", "replace"), True
+
+
+def inst_text(doc, rooms):
+    """the driver's instance text format from a simple-format document (after the reader's dedup)"""
+    cs = []
+    for c in doc["courses"]:
+        ins = []
+        for i in c.get("instructors", []):
+            if i not in ins:
+                ins.append(i)
+        fb = struct.unpack("I", struct.pack("f", c.get("room_factor", 1.0)))[0]
+        ob = struct.unpack("I", struct.pack("f", c.get("room_offset", 0.0)))[0]
+        cs.append(f"{c['num_min']},{c['num_max']},{1 if c.get('fixed_course') else 0},{fb},{ob},{';'.join(map(str, ins)) if ins else '-'}")
+    ps = []
+    for p in doc["participants"]:
+        ps.append(";".join(f"{ch['course']}:{ch['penalty']}" for ch in p["choices"]) if p["choices"] else "-")
+    rs = "-" if rooms is None else "=" + ",".join(map(str, rooms))
+    return " ".join(cs) + "#" + " ".join(ps) + "#" + rs
+
+
+def fmt_assign(a):
+    return ",".join("_" if x is None else str(x) for x in a)
+
+
+# --------------------------------------------------------------------------------------------------
+# stream: cdedb-read / cdedb-pairs (in-process reader through the harness runner)
+
+def run_reader(workdir, items):
+    """items: list of (doc, opts) -> list of {"tagged":…, "result":…}"""
+    inf = os.path.join(workdir, f"cdedb-in-{os.getpid()}.jsonl")
+    outf = os.path.join(workdir, f"cdedb-out-{os.getpid()}.jsonl")
+    with open(inf, "w", encoding="utf-8") as f:
+        for doc, opts in items:
+            f.write(json.dumps({"doc": doc, "opts": opts}, ensure_ascii=False) + "\n")
+    p = subprocess.run([HARNESS_EXE, "cdedb-read", inf, outf], stdout=subprocess.PIPE, stderr=subprocess.STDOUT)
+    if p.returncode != 0:
+        raise RuntimeError("cdedb-read runner failed: " + p.stdout.decode()[-2000:])
+    res = [json.loads(l) for l in open(outf, encoding="utf-8")]
+    os.remove(inf); os.remove(outf)
+    return res
+
+
+def problem_of(doc, opts):
+    """independent declarative re-statement of C12 (for well-formed exports): expected participants
+    (dbid, choices as (course dbid, penalty)) and courses (dbid list in order)"""
+    tracks = [(int(pk), int(tk)) for pk, p in doc["event"]["parts"].items() for tk in p["tracks"].keys()]
+    if opts["track"] is None:
+        if len(tracks) != 1:
+            return None
+        part, track = tracks[0]
+    else:
+        m = [x for x in tracks if x[1] == opts["track"]]
+        if not m:
+            return None
+        part, track = m[0]
+    t = str(track)
+    offered = []
+    for cid, c in doc["courses"].items():
+        if t in c["segments"] and (c["segments"][t] or not opts["ic"]):
+            nr = c["nr"]
+            offered.append((" " * max(0, 10 - len(nr)) + nr, int(cid)))
+    # stable sort by padded number over the document (key) order
+    order = sorted(doc["courses"].keys())  # BTreeMap order of the keys
+    pos = {int(k): i for i, k in enumerate(order)}
+    offered.sort(key=lambda x: (x[0].encode("utf-8"), pos[x[1]]))
+    kept = [cid for _, cid in offered]
+    parts = []
+    for rid in sorted(doc["registrations"].keys()):
+        reg = doc["registrations"][rid]
+        pp = reg["parts"].get(str(part))
+        if not isinstance(pp, dict) or pp.get("status") != 2:
+            continue
+        rt = reg["tracks"][t]
+        ch = [(cid, i) for i, cid in enumerate(rt["choices"]) if cid in kept]
+        assigned = rt["course_id"] if rt["course_id"] in kept else None
+        instr = rt["course_instructor"] if rt["course_instructor"] in kept else None
+        if opts["ia"] and assigned is not None:
+            continue
+        if not ch and instr is None:
+            continue
+        parts.append((int(rid), ch, instr))
+    return kept, parts
+
+
+def stream_cdedb_read(seed, tier, workdir, stream):
+    r = random.Random(seed * 7919 + 1)
+    n = scale(tier, 400, 6000)
+    cases = []
+    for i in range(n):
+        doc, opts, info = gen_export(r)
+        what = None
+        if i % 4 == 3:
+            what = corrupt_export(r, doc, opts, info)
+        cases.append({"doc": doc, "opts": opts, "info": info, "corruption": what})
+    return cases
+
+
+def lines_cdedb_read(cases, workdir, stream):
+    res = run_reader(workdir, [(c["doc"], c["opts"]) for c in cases])
+    out = []
+    for i, (c, rr) in enumerate(zip(cases, res)):
+        out.append({"kind": "case", "stream": stream, "case": i, "corpus": False, "data": c})
+        result = rr["result"]
+        payload = json.dumps({"doc": rr["tagged"], "opts": c["opts"]}, ensure_ascii=False)
+        feat = ["corrupt:" + str(c["corruption"])] if c["corruption"] else ["valid"]
+        if "panic" in result:
+            out.append(line("direct", ["C15", "C12"], ok=False, what="io::cdedb::read panicked: " + str(result["panic"])[:200], case=i, stream=stream))
+            out.append(line("corr", ["C12", "C11", "C13", "C15"], "CR", payload, "PANIC", case=i, stream=stream, feat=feat))
+            continue
+        if "err" in result:
+            out.append(line("corr", ["C12", "C11", "C13", "C15"], "CR", payload, "ERR", case=i, stream=stream, feat=feat + ["refused"]))
+            if c["corruption"] is None:
+                out.append(line("direct", ["C12"], ok=False, what="a well-formed export was refused: " + result["err"][:200], case=i, stream=stream))
+            continue
+        ok = result["ok"]
+        feat.append("ia" if c["opts"]["ia"] else "no-ia")
+        feat.append("ic" if c["opts"]["ic"] else "no-ic")
+        out.append(line("corr", ["C12", "C11", "C13", "C15"], "CR", payload, json.dumps(ok, ensure_ascii=False), case=i, stream=stream, feat=feat))
+        out.append(line("direct", ["C12"], ok=bool(result.get("index_ok")), what="index fields equal positions", case=i, stream=stream, nontrivial=False))
+        if c["corruption"] and c["corruption"] not in ("tracks-missing-in-part?",):
+            refusals = {"kind", "version", "version-old", "no-track-selected", "unknown-track"}
+            if c["corruption"] in refusals:
+                out.append(line("direct", ["C12", "C15"], ok=False, what=f"export with corruption '{c['corruption']}' was accepted", case=i, stream=stream))
+        if c["corruption"] is None:
+            exp = problem_of(c["doc"], c["opts"])
+            if exp is not None:
+                kept, parts = exp
+                got_courses = [x[0] for x in ok["courses"]]
+                got_parts = [(p[0], [(got_courses[ch[0]], ch[1]) for ch in p[2]]) for p in ok["parts"]]
+                exp_parts = [(rid, ch) for rid, ch, _ in parts]
+                good = got_courses == kept and got_parts == exp_parts
+                # every stored instructor index points at the registration instructing that course
+                for ci, cc in enumerate(ok["courses"]):
+                    want = [k for k, (_, _, ins) in enumerate(parts) if ins == kept[ci]] if ci < len(kept) else None
+                    if cc[4] != want:
+                        good = False
+                out.append(line("direct", ["C12"], ok=good, what=f"declarative problem: courses {kept} participants {exp_parts[:6]} vs reader courses {got_courses} participants {got_parts[:6]}", case=i, stream=stream))
+    return out
+
+
+def stream_cdedb_pairs(seed, tier, workdir, stream):
+    r = random.Random(seed * 104729 + 5)
+    n = scale(tier, 250, 4000)
+    cases = []
+    for i in range(n):
+        doc, opts, info = gen_export(r)
+        twin, edits = irrelevant_edits(r, doc, opts, info)
+        cases.append({"doc": doc, "twin": twin, "opts": opts, "info": info, "edits": edits})
+    return cases
+
+
+def lines_cdedb_pairs(cases, workdir, stream):
+    res = run_reader(workdir, [(c["doc"], c["opts"]) for c in cases] + [(c["twin"], c["opts"]) for c in cases])
+    n = len(cases)
+    out = []
+    for i, c in enumerate(cases):
+        out.append({"kind": "case", "stream": stream, "case": i, "corpus": False, "data": c})
+        a, b = res[i]["result"], res[n + i]["result"]
+        same = (a.get("ok") == b.get("ok")) and (("err" in a) == ("err" in b)) and "panic" not in a and "panic" not in b
+        out.append(line("direct", ["C13"], ok=same, what=f"reader result for an export and its twin after irrelevant edits {c['edits']}: {'equal' if same else 'DIFFERENT'}",
+                        case=i, stream=stream, nontrivial=bool(c["edits"]) and "ok" in a, feat=["edit:" + e for e in set(c["edits"])]))
+        # the model must follow both documents as well
+        out.append(line("corr", ["C13"], "CR", json.dumps({"doc": res[n + i]["tagged"], "opts": c["opts"]}, ensure_ascii=False),
+                        json.dumps(b["ok"], ensure_ascii=False) if "ok" in b else "ERR", case=i, stream=stream, nontrivial=bool(c["edits"])))
+    return out
+
+
+# --------------------------------------------------------------------------------------------------
+# stream: e2e-cde (real binary on exports; reference partial-import model; C05, C11, C13, C08)
+
+def apply_import(export, imp, track):
+    e = copy.deepcopy(export)
+    for rid, rv in imp.get("registrations", {}).items():
+        for t, tv in rv.get("tracks", {}).items():
+            e["registrations"][rid]["tracks"][t]["course_id"] = tv["course_id"]
+    for cid, cv in imp.get("courses", {}).items():
+        for t, v in cv.get("segments", {}).items():
+            e["courses"][cid]["segments"][t] = v
+    return e
+
+
+def consistent(export, imp, opts, info):
+    """the clauses of C05 / C11 in terms of database ids; returns list of problems"""
+    t = str(info["sel_track"])
+    sp = str(info["sel_part"])
+    problems = []
+    for rid, rv in imp.get("registrations", {}).items():
+        if rid not in export["registrations"]:
+            problems.append(f"registration {rid} is not in the export"); continue
+        if list(rv.keys()) != ["tracks"] or list(rv["tracks"].keys()) != [t]:
+            problems.append(f"registration {rid}: names other tracks/fields {rv}")
+    for cid, cv in imp.get("courses", {}).items():
+        if cid not in export["courses"]:
+            problems.append(f"course {cid} is not in the export"); continue
+        if list(cv.get("segments", {}).keys()) != [t]:
+            problems.append(f"course {cid}: segments {cv.get('segments')}")
+        if t not in export["courses"][cid]["segments"]:
+            problems.append(f"course {cid} is not offered in track {t}")
+        if opts["ic"] and export["courses"][cid]["segments"].get(t) is False:
+            problems.append(f"course {cid} was cancelled and is mentioned although --ignore-cancelled")
+    after = apply_import(export, imp, t)
+    named = set(imp.get("registrations", {}).keys())
+    for rid in named:
+        reg = export["registrations"][rid]
+        if reg["parts"].get(sp, {}).get("status") != 2:
+            problems.append(f"registration {rid} is not a participant of the part")
+        if opts["ia"]:
+            old = reg["tracks"][t]["course_id"]
+            if old is not None and str(old) in imp.get("courses", {}) or (old is not None and t in export["courses"][str(old)]["segments"] and (export["courses"][str(old)]["segments"][t] or not opts["ic"])):
+                problems.append(f"registration {rid} was pre-assigned to {old} and is reassigned although --ignore-assigned")
+        new = imp["registrations"][rid]["tracks"][t]["course_id"]
+        seg = imp.get("courses", {}).get(str(new), {}).get("segments", {}).get(t)
+        if seg is not True:
+            problems.append(f"registration {rid} is assigned to course {new}, which the file does not mark as taking place")
+        rt = reg["tracks"][t]
+        if new not in rt["choices"] and rt["course_instructor"] != new:
+            problems.append(f"registration {rid} neither chose nor instructs course {new}")
+    # sizes of active courses: attendees besides instructors, counting both groups
+    for cid, cv in imp.get("courses", {}).items():
+        if cv["segments"].get(t) is True and cid in export["courses"]:
+            c = export["courses"][cid]
+            att = 0
+            for rid, reg in after["registrations"].items():
+                if reg["parts"].get(sp, {}).get("status") != 2:
+                    continue
+                rt = reg["tracks"][t]
+                counted = rid in named or (opts["ia"] and rt["course_id"] == int(cid))
+                if counted and rt["course_id"] == int(cid) and rt["course_instructor"] != int(cid):
+                    att += 1
+            mn = c.get("min_size") if isinstance(c.get("min_size"), int) else 0
+            mx = c.get("max_size") if isinstance(c.get("max_size"), int) else 25
+            new_att = sum(1 for rid in named if imp["registrations"][rid]["tracks"][t]["course_id"] == int(cid)
+                          and export["registrations"][rid]["tracks"][t]["course_instructor"] != int(cid))
+            if att < mn:
+                problems.append(f"course {cid} takes place with {att} attendees < min_size {mn}")
+            if att > mx and new_att > 0:
+                problems.append(f"course {cid}: {att} attendees > max_size {mx} with {new_att} newly assigned")
+        if cv["segments"].get(t) is False:
+            for rid in named:
+                if imp["registrations"][rid]["tracks"][t]["course_id"] == int(cid):
+                    problems.append(f"registration {rid} assigned to cancelled course {cid}")
+            if opts["ia"]:
+                for rid, reg in export["registrations"].items():
+                    if reg["parts"].get(sp, {}).get("status") == 2 and reg["tracks"][t]["course_id"] == int(cid):
+                        problems.append(f"course {cid} has the pre-assigned registration {rid} and is cancelled")
+    return problems
+
+
+def stream_e2e_cde(seed, tier, workdir, stream):
+    r = random.Random(seed * 15485863 + 11)
+    n = scale(tier, 140, 2500)
+    cases = []
+    for i in range(n):
+        doc, opts, info = gen_export(r, rich=(i % 3 != 2))
+        rooms = None
+        if r.random() < 0.4:
+            rooms = [r.choice([2, 3, 4, 5, 6, 8, 10, 20, 30]) for _ in range(r.randint(1, len(doc["courses"]) + 1))]
+        twin = None
+        if i % 3 == 0:
+            twin, edits = irrelevant_edits(r, doc, opts, info)
+        cases.append({"doc": doc, "opts": opts, "info": info, "rooms": rooms, "threads": r.choice([1, 1, 2, 4]), "twin": twin})
+    return cases
+
+
+def cde_args(opts, rooms, threads):
+    a = ["--cde", "--num-threads", str(threads)]
+    if opts["track"] is not None:
+        a += ["--track", str(opts["track"])]
+    if opts["ic"]:
+        a.append("--ignore-cancelled")
+    if opts["ia"]:
+        a.append("--ignore-assigned")
+    if opts["rff"]:
+        a += ["--room-factor-field", opts["rff"]]
+    if opts["rof"]:
+        a += ["--room-offset-field", opts["rof"]]
+    if rooms is not None:
+        a += ["--rooms", ",".join(map(str, rooms))]
+    return a
+
+
+def strip_import(imp):
+    imp = copy.deepcopy(imp)
+    imp.pop("timestamp", None)
+    imp.pop("summary", None)
+    return imp
+
+
+def lines_e2e_cde(cases, workdir, stream, binary):
+    out = []
+    d = tempfile.mkdtemp(prefix="e2e", dir=workdir)
+    try:
+        for i, c in enumerate(cases):
+            out.append({"kind": "case", "stream": stream, "case": i, "corpus": False, "data": c})
+            inp = os.path.join(d, "in.json"); outp = os.path.join(d, "out.json")
+            json.dump(c["doc"], open(inp, "w", encoding="utf-8"), ensure_ascii=False)
+            if os.path.exists(outp):
+                os.remove(outp)
+            rc, so, se, to = run_bin(binary, cde_args(c["opts"], c["rooms"], c["threads"]) + [inp, outp])
+            bad = to or rc not in (0, 1, 65) or "panicked" in se
+            out.append(line("direct", ["C10", "C15"], ok=not bad, what=f"exit {rc} timeout {to} stderr tail: {se[-300:]}", case=i, stream=stream, nontrivial=False))
+            if rc == 65 and "only possible with 1 or more participants" in se:
+                continue
+            if rc == 65:
+                out.append(line("direct", ["C12"], ok=False, what="a well-formed export was refused: " + se[-300:], case=i, stream=stream))
+                continue
+            if rc != 0:
+                out.append(line("direct", ["C10"], ok=not os.path.exists(outp), what=f"exit {rc} and output file exists", case=i, stream=stream, nontrivial=False))
+                continue
+            try:
+                imp = json.load(open(outp, encoding="utf-8"))
+            except Exception as e:
+                out.append(line("direct", ["C16", "C05"], ok=False, what=f"exit 0 but the output file does not parse: {e}", case=i, stream=stream))
+                continue
+            probs = consistent(c["doc"], imp, c["opts"], c["info"])
+            c05 = [p for p in probs if "pre-assigned" not in p and "--ignore" not in p]
+            c11 = [p for p in probs if p not in c05]
+            out.append(line("direct", ["C05"], ok=not c05, what="; ".join(c05[:3]) or "import file consistent with the export", case=i, stream=stream,
+                            nontrivial=bool(imp.get("registrations")), feat=["regs=%d" % min(len(imp.get("registrations", {})), 6)]))
+            if c["opts"]["ia"] or c["opts"]["ic"]:
+                allp = probs
+                out.append(line("direct", ["C11"], ok=not allp, what="; ".join(allp[:3]) or "ignore options respected", case=i, stream=stream,
+                                nontrivial=bool(imp.get("registrations")), feat=["ia" if c["opts"]["ia"] else "", "ic" if c["opts"]["ic"] else ""]))
+            hdr_ok = imp.get("kind") == "partial" and imp.get("id") == c["doc"]["id"] and isinstance(imp.get("EVENT_SCHEMA_VERSION"), list)
+            out.append(line("direct", ["C05"], ok=hdr_ok, what="kind/id/version of the import file", case=i, stream=stream, nontrivial=False))
+            # the Lean model: reader + writer + HardOK on the problem the model reads
+            payload = json.dumps({"doc": tag(c["doc"]), "opts": c["opts"], "imp": tag(strip_import(imp)), "rooms": c["rooms"]}, ensure_ascii=False)
+            out.append(line("spec", ["C05", "C11", "C01", "C06"], "CE", payload, "file=ok write=ok hard=true room=true", case=i, stream=stream,
+                            nontrivial=bool(imp.get("registrations"))))
+            # overall quality in the summary (C08)
+            m = re.search(r"with solution quality (\S+) / overall assignment quality (\S+)\. Based", imp.get("summary", ""))
+            if m:
+                payload = json.dumps({"doc": tag(c["doc"]), "opts": c["opts"], "imp": tag(strip_import(imp))}, ensure_ascii=False)
+                out.append(line("spec", ["C08"], "CQ", payload, "QUALITY", case=i, stream=stream, what=json.dumps({"solution": m.group(1), "overall": m.group(2)})))
+            if c["twin"] is not None and c["threads"] == 1:
+                json.dump(c["twin"], open(inp, "w", encoding="utf-8"), ensure_ascii=False)
+                os.remove(outp)
+                rc2, so2, se2, to2 = run_bin(binary, cde_args(c["opts"], c["rooms"], 1) + [inp, outp])
+                same = rc2 == rc
+                if same and rc2 == 0:
+                    imp2 = json.load(open(outp, encoding="utf-8"))
+                    m2 = re.search(r"with solution quality (\S+) / overall assignment quality (\S+)\. Based", imp2.get("summary", ""))
+                    same = strip_import(imp2) == strip_import(imp) and (m is None or m2 is None or m.groups() == m2.groups())
+                out.append(line("direct", ["C13"], ok=same, what=f"export and twin (irrelevant edits) through the binary, one worker: {'equal' if same else 'DIFFERENT'}", case=i, stream=stream))
+    finally:
+        shutil.rmtree(d, ignore_errors=True)
+    return out
+
+
+def tag(v):
+    """the driver's tagged JSON encoding (as serde_json::Value sees the document)"""
+    if v is None or isinstance(v, bool):
+        return v
+    if isinstance(v, str):
+        return {"s": v}
+    if isinstance(v, int):
+        return {"u": v} if v >= 0 else {"i": v}
+    if isinstance(v, float):
+        return {"f": struct.unpack("Q", struct.pack("d", v))[0]}
+    if isinstance(v, list):
+        return {"a": [tag(x) for x in v]}
+    if isinstance(v, dict):
+        return {"o": [[k, tag(v[k])] for k in sorted(v.keys(), key=lambda s: s.encode("utf-8"))]}
+    raise ValueError(v)
+
+
+# --------------------------------------------------------------------------------------------------
+# stream: cli-simple (C10, C14, C08, C01 through the real binary)
+
+def stream_cli_simple(seed, tier, workdir, stream):
+    r = random.Random(seed * 32452843 + 3)
+    n = scale(tier, 120, 2000)
+    cases = []
+    for i in range(n):
+        doc, rooms = gen_simple(r, rooms_mode=1, big=(tier == "thorough" and i % 4 == 0))
+        if i % 10 == 9:
+            # an instructor listed twice is still one instructor (fix F10)
+            cs = [c for c in doc["courses"] if c["instructors"]]
+            if cs:
+                c = r.choice(cs)
+                c["instructors"].append(c["instructors"][0])
+        cases.append({"doc": doc, "rooms": rooms, "threads": r.choice([1, 1, 2, 4, None]), "print": r.random() < 0.8,
+                      "stale": r.random() < 0.3, "output": r.random() < 0.9})
+    return cases
+
+
+def parse_listing(stdout):
+    """-> list of (header, count, rooms line or None, [(name, is_instr)], [hidden names])"""
+    if not stdout.startswith("The assignment is:\n"):
+        return None
+    body = stdout[len("The assignment is:\n"):]
+    blocks = re.split(r"\n===== (.*) =====\n", "\n" + body.lstrip("\n") if not body.startswith("\n") else body)
+    res = []
+    for k in range(1, len(blocks), 2):
+        name = blocks[k]
+        lines_ = blocks[k + 1].split("\n")
+        cnt = None; rooms = None; entries = []; hidden = []; inhidden = False
+        for ln in lines_:
+            m = re.match(r"^\((\d+) participants incl\. instructors\)$", ln)
+            if m:
+                cnt = int(m.group(1)); continue
+            m = re.match(r"^\(possible course rooms: (.*)\)$", ln)
+            if m:
+                rooms = m.group(1); continue
+            if ln == "further attendees (not optimized):":
+                inhidden = True; continue
+            if ln.startswith("- "):
+                if inhidden:
+                    hidden.append(ln[2:])
+                elif ln.endswith(" (instr)"):
+                    entries.append((ln[2:-8], True))
+                else:
+                    entries.append((ln[2:], False))
+        res.append((name, cnt, rooms, entries, hidden))
+    return res
+
+
+def lines_cli_simple(cases, workdir, stream, binary):
+    out = []
+    d = tempfile.mkdtemp(prefix="clis", dir=workdir)
+    try:
+        for i, c in enumerate(cases):
+            out.append({"kind": "case", "stream": stream, "case": i, "corpus": False, "data": c})
+            inp = os.path.join(d, "in.json"); outp = os.path.join(d, "out.json")
+            json.dump(c["doc"], open(inp, "w", encoding="utf-8"), ensure_ascii=False)
+            if os.path.exists(outp):
+                os.remove(outp)
+            if c["stale"] and c["output"]:
+                # the output path already holds a longer, older result
+                open(outp, "w").write(json.dumps({"format": "X-courseassignment-simple", "version": "1.1", "assignment": [0] * 400, "quality": {}}) + "\n" * 50)
+            args = []
+            if c["threads"] is not None:
+                args += ["--num-threads", str(c["threads"])]
+            if c["rooms"] is not None:
+                args += ["--rooms", ",".join(map(str, c["rooms"]))]
+            if c["print"]:
+                args.append("--print")
+            args.append(inp)
+            if c["output"]:
+                args.append(outp)
+            rc, so, se, to = run_bin(binary, args)
+            nofile = not os.path.exists(outp) or (c["stale"] and c["output"] and rc != 0)
+            good = (not to) and rc in (0, 1) and "panicked" not in se and (rc == 0 or ("No feasible solution found" in se))
+            out.append(line("direct", ["C10"], ok=good, what=f"exit {rc} timeout {to}; stderr tail: {se[-200:]}", case=i, stream=stream,
+                            feat=[f"exit={rc}", "rooms" if c["rooms"] is not None else "norooms"]))
+            if rc == 1:
+                wrote = c["output"] and os.path.exists(outp) and not c["stale"]
+                out.append(line("direct", ["C10"], ok=not wrote, what="exit status 1 but an output file was written", case=i, stream=stream, nontrivial=False))
+                continue
+            if rc != 0:
+                continue
+            np_ = len(c["doc"]["participants"]); nc = len(c["doc"]["courses"])
+            a = None
+            if c["output"]:
+                try:
+                    res = json.load(open(outp, encoding="utf-8"))
+                    a = res["assignment"]
+                    shape = (isinstance(a, list) and len(a) == np_ and all(x is None or (isinstance(x, int) and not isinstance(x, bool) and 0 <= x < nc) for x in a)
+                             and res.get("format") == "X-courseassignment-simple" and res.get("version") == "1.1" and isinstance(res.get("quality"), dict)
+                             and set(res.keys()) == {"format", "version", "assignment", "quality"})
+                    out.append(line("direct", ["C14", "C16"], ok=shape, what=f"output file: keys {sorted(res.keys())}, assignment {a}", case=i, stream=stream))
+                    if not shape:
+                        a = None
+                except Exception as e:
+                    out.append(line("direct", ["C14", "C16"], ok=False, what=f"exit 0 but the output file does not parse: {e}", case=i, stream=stream))
+                    a = None
+                if a is not None:
+                    it = inst_text(c["doc"], c["rooms"])
+                    q = res["quality"]
+                    out.append(line("spec", ["C01", "C06", "C08"], "A", f"{it}#{fmt_assign(a)}", f"valid=true hard=true score={q.get('solution_score')} room=true", case=i, stream=stream))
+                    out.append(line("spec", ["C08"], "Q", f"{it}#{fmt_assign(a)}", "QUALITY", case=i, stream=stream,
+                                    what=json.dumps({"q": q})))
+            if c["print"]:
+                lst = parse_listing(so)
+                if lst is None or len(lst) != nc:
+                    out.append(line("direct", ["C14"], ok=False, what=f"--print output not understood: {so[:200]!r}", case=i, stream=stream))
+                    continue
+                if a is not None:
+                    probs = []
+                    for ci, (hdr, cnt, rooms_line, entries, hidden) in enumerate(lst):
+                        cdoc = c["doc"]["courses"][ci]
+                        want = [(c["doc"]["participants"][p]["name"], p in cdoc["instructors"]) for p in range(np_) if a[p] == ci]
+                        if hdr != cdoc["name"]:
+                            probs.append(f"header {hdr!r} != {cdoc['name']!r}")
+                        if entries != want:
+                            probs.append(f"course {ci}: listed {entries} expected {want}")
+                        if hidden != cdoc.get("hidden_participant_names", []):
+                            probs.append(f"course {ci}: hidden names {hidden}")
+                        if cnt != len(want) + len(cdoc.get("hidden_participant_names", [])):
+                            probs.append(f"course {ci}: count {cnt}")
+                        if (rooms_line is not None) != (c["rooms"] is not None):
+                            probs.append(f"course {ci}: rooms line {rooms_line!r}")
+                    out.append(line("direct", ["C14"], ok=not probs, what="; ".join(probs[:3]) or "listing matches the assignment array", case=i, stream=stream,
+                                    feat=["hidden" if any(x.get("hidden_participant_names") for x in c["doc"]["courses"]) else "nohidden"]))
+                    # the Lean model of format_assignment renders the same text
+                    names = {"c": [x["name"] for x in c["doc"]["courses"]], "p": [x["name"] for x in c["doc"]["participants"]],
+                             "h": [x.get("hidden_participant_names", []) for x in c["doc"]["courses"]]}
+                    payload = json.dumps({"inst": inst_text(c["doc"], c["rooms"]), "a": fmt_assign(a), "names": names,
+                                          "rooms": [x[2] for x in lst] if c["rooms"] is not None else None}, ensure_ascii=False)
+                    out.append(line("corr", ["C14"], "L", payload, json.dumps(so[len("The assignment is:\n"):], ensure_ascii=False), case=i, stream=stream))
+                    if c["rooms"] is not None:
+                        payload = json.dumps({"inst": inst_text(c["doc"], c["rooms"]), "a": fmt_assign(a), "rooms": c["rooms"], "listed": [x[2] for x in lst]})
+                        out.append(line("spec", ["C18"], "RL", payload, "sound=true nonempty=true", case=i, stream=stream))
+    finally:
+        shutil.rmtree(d, ignore_errors=True)
+    return out
+
+
+# --------------------------------------------------------------------------------------------------
+# stream: cli-malformed (C15)
+
+def corrupt_simple(r, doc):
+    what = r.choice(["choice-oob", "instr-oob", "instr-eq-len", "min>max", "no-participants", "no-courses", "part-not-list", "choice-str", "neg-penalty",
+                     "no-name", "no-num-max", "num-max-str", "instr-str", "factor-str", "fixed-int", "course-null", "penalty-float", "choice-missing-course",
+                     "huge-index", "neg-index", "top-array", "hidden-not-list"])
+    cs, ps = doc["courses"], doc["participants"]
+    if what == "choice-oob":
+        r.choice(ps)["choices"].append({"course": len(cs) + r.randint(0, 2), "penalty": 0})
+    elif what == "instr-oob":
+        r.choice(cs)["instructors"].append(len(ps) + r.randint(1, 3))
+    elif what == "instr-eq-len":
+        r.choice(cs)["instructors"].append(len(ps))
+    elif what == "min>max":
+        c = r.choice(cs); c["num_min"] = c["num_max"] + 1
+    elif what == "no-participants":
+        del doc["participants"]
+    elif what == "no-courses":
+        doc["courses"] = r.choice([None, 5, "x"]) if r.random() < 0.5 else doc.pop("courses") and None
+        if "courses" in doc and doc["courses"] is None and r.random() < 0.5:
+            del doc["courses"]
+    elif what == "part-not-list":
+        doc["participants"] = {"0": ps[0]}
+    elif what == "choice-str":
+        r.choice(ps)["choices"].append({"course": "0", "penalty": 0})
+    elif what == "neg-penalty":
+        r.choice(ps)["choices"].append({"course": 0, "penalty": -1})
+    elif what == "no-name":
+        del r.choice(ps)["name"]
+    elif what == "no-num-max":
+        del r.choice(cs)["num_max"]
+    elif what == "num-max-str":
+        r.choice(cs)["num_max"] = "3"
+    elif what == "instr-str":
+        r.choice(cs)["instructors"] = ["0"]
+    elif what == "factor-str":
+        r.choice(cs)["room_factor"] = "1.5"
+    elif what == "fixed-int":
+        r.choice(cs)["fixed_course"] = 1
+    elif what == "course-null":
+        cs[r.randrange(len(cs))] = None
+    elif what == "penalty-float":
+        r.choice(ps)["choices"].append({"course": 0, "penalty": 0.5})
+    elif what == "choice-missing-course":
+        r.choice(ps)["choices"].append({"penalty": 0})
+    elif what == "huge-index":
+        r.choice(ps)["choices"].append({"course": 2 ** 63, "penalty": 0})
+    elif what == "neg-index":
+        r.choice(cs)["instructors"].append(-1)
+    elif what == "top-array":
+        return what, [doc]
+    elif what == "hidden-not-list":
+        r.choice(cs)["hidden_participant_names"] = "Anna"
+    return what, doc
+
+
+def stream_cli_malformed(seed, tier, workdir, stream):
+    r = random.Random(seed * 49979687 + 17)
+    n = scale(tier, 130, 2500)
+    cases = []
+    for i in range(n):
+        kind = ["simple", "simple", "cde", "cde", "option", "garbage"][i % 6]
+        if kind == "simple":
+            doc, rooms = gen_simple(r, rooms_mode=1)
+            what, doc = corrupt_simple(r, doc)
+            cases.append({"kind": kind, "doc": doc, "what": what, "rooms": rooms})
+        elif kind == "cde":
+            doc, opts, info = gen_export(r)
+            what = None
+            while what is None:
+                d2, o2 = copy.deepcopy(doc), dict(opts)
+                what = corrupt_export(r, d2, o2, info)
+            cases.append({"kind": kind, "doc": d2, "opts": o2, "what": what})
+        elif kind == "option":
+            doc, rooms = gen_simple(r, rooms_mode=0)
+            what = r.choice(["threads-0", "rooms-garbage", "rooms-empty-item", "rooms-neg", "rooms-file-missing", "rooms-file-garbage", "rooms-file-wrong-shape",
+                             "both-rooms", "threads-neg", "threads-str", "track-str", "input-missing"])
+            cases.append({"kind": kind, "doc": doc, "what": what})
+        else:
+            what = r.choice(["empty", "truncated", "binary", "not-json", "nested-deep", "bom"])
+            doc, rooms = gen_simple(r, rooms_mode=0)
+            cases.append({"kind": kind, "doc": doc, "what": what, "cde": r.random() < 0.5})
+    return cases
+
+
+def lines_cli_malformed(cases, workdir, stream, binary):
+    out = []
+    d = tempfile.mkdtemp(prefix="clim", dir=workdir)
+    try:
+        for i, c in enumerate(cases):
+            out.append({"kind": "case", "stream": stream, "case": i, "corpus": False, "data": c})
+            inp = os.path.join(d, "in.json"); outp = os.path.join(d, "out.json")
+            if os.path.exists(outp):
+                os.remove(outp)
+            args = ["--num-threads", "1"]
+            allowed = {65}
+            maybe_ok = False
+            if c["kind"] == "simple":
+                json.dump(c["doc"], open(inp, "w", encoding="utf-8"), ensure_ascii=False)
+                if c.get("rooms") is not None:
+                    args += ["--rooms", ",".join(map(str, c["rooms"]))]
+                args += [inp, outp]
+            elif c["kind"] == "cde":
+                json.dump(c["doc"], open(inp, "w", encoding="utf-8"), ensure_ascii=False)
+                args = cde_args(c["opts"], None, 1) + [inp, outp]
+                maybe_ok = c["what"] == "tracks-missing-in-part?"
+            elif c["kind"] == "option":
+                json.dump(c["doc"], open(inp, "w", encoding="utf-8"), ensure_ascii=False)
+                w = c["what"]
+                args = []
+                if w == "threads-0":
+                    args = ["--num-threads", "0", inp, outp]; allowed = {64}
+                elif w == "rooms-garbage":
+                    args = ["--rooms", "10,abc", inp, outp]
+                elif w == "rooms-empty-item":
+                    args = ["--rooms", "10,,5", inp, outp]
+                elif w == "rooms-neg":
+                    args = ["--rooms=-3,4", inp, outp]; allowed = {65, 2}
+                elif w == "rooms-file-missing":
+                    args = ["--rooms-file", os.path.join(d, "nonexistent.json"), inp, outp]; allowed = {66}
+                elif w == "rooms-file-garbage":
+                    open(os.path.join(d, "rooms.json"), "w").write("[{\"name\": \"A\", \"capacity\": ")
+                    args = ["--rooms-file", os.path.join(d, "rooms.json"), inp, outp]
+                elif w == "rooms-file-wrong-shape":
+                    open(os.path.join(d, "rooms.json"), "w").write(json.dumps([{"name": "A", "capacity": "ten", "quantity": 1}]))
+                    args = ["--rooms-file", os.path.join(d, "rooms.json"), inp, outp]
+                elif w == "both-rooms":
+                    open(os.path.join(d, "rooms.json"), "w").write("[]")
+                    args = ["--rooms", "3", "--rooms-file", os.path.join(d, "rooms.json"), inp, outp]; allowed = {64}
+                elif w == "threads-neg":
+                    args = ["--num-threads=-1", inp, outp]; allowed = {2}
+                elif w == "threads-str":
+                    args = ["--num-threads", "many", inp, outp]; allowed = {2}
+                elif w == "track-str":
+                    args = ["--cde", "--track", "three", inp, outp]; allowed = {65}
+                elif w == "input-missing":
+                    args = [os.path.join(d, "nonexistent-input.json"), outp]; allowed = {66}
+            else:
+                raw = json.dumps(c["doc"]).encode()
+                w = c["what"]
+                data = {"empty": b"", "truncated": raw[: len(raw) // 2], "binary": bytes(range(256)) * 3, "not-json": b"participants: []\ncourses: []\n",
+                        "nested-deep": b"[" * 300 + b"]" * 300, "bom": b"\xef\xbb\xbf" + raw}[w]
+                open(inp, "wb").write(data)
+                args += (["--cde"] if c.get("cde") else []) + [inp, outp]
+            rc, so, se, to = run_bin(binary, args)
+            refused = (not to) and rc in allowed and "panicked" not in se and not os.path.exists(outp) and ("ERROR" in se or rc == 2)
+            if maybe_ok and rc in (0, 1):
+                refused = "panicked" not in se
+            out.append(line("direct", ["C15"], ok=refused, what=f"{c['kind']}/{c['what']}: exit {rc} (allowed {sorted(allowed)}), timeout {to}, output file {os.path.exists(outp)}, stderr tail: {se[-250:]}",
+                            case=i, stream=stream, feat=[f"{c['kind']}:{c['what']}", f"exit={rc}"]))
+            if c["kind"] == "simple" and not isinstance(c["doc"], list):
+                # the Lean model of the simple reader + validation must refuse as well
+                out.append(line("corr", ["C15"], "SR", json.dumps({"doc": tag(c["doc"])}, ensure_ascii=False), "REFUSE" if rc == 65 else "ACCEPT", case=i, stream=stream))
+    finally:
+        shutil.rmtree(d, ignore_errors=True)
+    return out
+
+
+# --------------------------------------------------------------------------------------------------
+# stream: cli-fault (C16): failures of creating / writing the output file
+
+def stream_cli_fault(seed, tier, workdir, stream):
+    r = random.Random(seed * 67867967 + 23)
+    cases = []
+    # a simple instance and an export that certainly have a solution
+    simple = {"format": "X-coursedata-simple", "version": "1.0",
+              "participants": [{"name": f"P{i}", "choices": [{"course": i % 2, "penalty": 0}, {"course": (i + 1) % 2, "penalty": 1}]} for i in range(6)],
+              "courses": [{"name": "A", "num_max": 5, "num_min": 1, "instructors": []}, {"name": "B", "num_max": 5, "num_min": 1, "instructors": []}]}
+    for fmt in ["simple", "cde"]:
+        for fault in ["ok", "missing-dir", "is-dir", "name-too-long", "notdir-component", "dev-full", "readonly-dir", "fsize-limit", "stale-longer"]:
+            for pr in [False, True]:
+                cases.append({"fmt": fmt, "fault": fault, "print": pr, "simple": simple, "limit": r.choice([1, 50, 200])})
+    return cases
+
+
+def lines_cli_fault(cases, workdir, stream, binary):
+    out = []
+    d = tempfile.mkdtemp(prefix="clif", dir=workdir)
+    cde_doc = os.path.join("/repo", "src", "io", "test_ressources", "TestAka_partial_export_event.json")
+    try:
+        for i, c in enumerate(cases):
+            out.append({"kind": "case", "stream": stream, "case": i, "corpus": False, "data": {k: v for k, v in c.items() if k != "simple"}})
+            inp = os.path.join(d, "in.json")
+            if c["fmt"] == "simple":
+                json.dump(c["simple"], open(inp, "w"))
+                args = ["--num-threads", "1"]
+            else:
+                shutil.copy(cde_doc, inp)
+                args = ["--num-threads", "1", "--cde", "--track", "3"]
+            if c["print"]:
+                args.append("--print")
+            fault = c["fault"]
+            sub = os.path.join(d, "sub"); shutil.rmtree(sub, ignore_errors=True); os.makedirs(sub)
+            outp = os.path.join(sub, "out.json")
+            pre = None
+            if fault == "missing-dir":
+                outp = os.path.join(sub, "nodir", "out.json")
+            elif fault == "is-dir":
+                os.makedirs(outp)
+            elif fault == "name-too-long":
+                outp = os.path.join(sub, "x" * 300 + ".json")
+            elif fault == "notdir-component":
+                open(os.path.join(sub, "file"), "w").write("x")
+                outp = os.path.join(sub, "file", "out.json")
+            elif fault == "dev-full":
+                outp = "/dev/full"
+            elif fault == "readonly-dir":
+                os.chmod(sub, 0o555)
+                if os.access(sub, os.W_OK):   # running as root: a read-only directory does not stop us
+                    fault = "readonly-dir-as-root"
+            elif fault == "stale-longer":
+                open(outp, "w").write("{" + " " * 5000 + "\"old\": true}" + "\n" * 100)
+            preexec = None
+            if fault == "fsize-limit":
+                lim = c["limit"]
+                def preexec():
+                    import resource, signal
+                    signal.signal(signal.SIGXFSZ, signal.SIG_IGN)
+                    resource.setrlimit(resource.RLIMIT_FSIZE, (lim, lim))
+            try:
+                p = subprocess.run([binary] + args + [inp, outp], stdout=subprocess.PIPE, stderr=subprocess.PIPE, timeout=30, preexec_fn=preexec)
+                rc, so, se = p.returncode, p.stdout.decode("utf-8", "replace"), p.stderr.decode("utf-8", "replace")
+            except subprocess.TimeoutExpired:
+                rc, so, se = None, "", "timeout"
+            finally:
+                os.chmod(sub, 0o755)
+            complete = False
+            if os.path.isfile(outp) and outp != "/dev/full":
+                try:
+                    j = json.load(open(outp, encoding="utf-8"))
+                    complete = ("assignment" in j) if c["fmt"] == "simple" else ("registrations" in j and "courses" in j)
+                except Exception:
+                    complete = False
+            if rc == 0:
+                ok = complete
+                what = f"{c['fmt']}/{fault}/print={c['print']}: exit 0 and the output file is {'complete' if complete else 'MISSING OR INCOMPLETE'}"
+            else:
+                expect_fail = fault not in ("ok", "stale-longer", "readonly-dir-as-root")
+                ok = expect_fail and rc is not None and rc != 0 and "panicked" not in se
+                what = f"{c['fmt']}/{fault}/print={c['print']}: exit {rc}; stderr tail {se[-200:]}"
+            if c["print"] and rc is not None:
+                ok = ok and so.startswith("The assignment is:")
+            out.append(line("direct", ["C16"], ok=ok, what=what, case=i, stream=stream, feat=[f"{fault}:exit={rc}"]))
+            # decision logic of the output stage as modelled in Lean
+            created = os.path.isfile(outp) or outp == "/dev/full"
+            out.append(line("corr", ["C16"], "OS", json.dumps({"created": fault in ("ok", "dev-full", "fsize-limit", "stale-longer", "readonly-dir-as-root"),
+                                                                "written": fault in ("ok", "stale-longer", "readonly-dir-as-root"), "print": c["print"]}),
+                            f"exit={rc} listing={'true' if (c['print'] and so.startswith('The assignment is:')) else 'false'}", case=i, stream=stream))
+    finally:
+        shutil.rmtree(d, ignore_errors=True)
+    return out
+
+
+# --------------------------------------------------------------------------------------------------
 
 def run(stream, seed, tier, binary, workdir, corpus, replay_case=None):
+    gens = {"cdedb-read": stream_cdedb_read, "cdedb-pairs": stream_cdedb_pairs, "e2e-cde": stream_e2e_cde,
+            "cli-simple": stream_cli_simple, "cli-malformed": stream_cli_malformed, "cli-fault": stream_cli_fault}
+    if replay_case is not None:
+        cases = [replay_case]
+    else:
+        cases = []
+        # corpus first
+        for root, _, files in os.walk(corpus):
+            for f in sorted(files):
+                try:
+                    v = json.load(open(os.path.join(root, f), encoding="utf-8"))
+                    if v.get("stream") == stream:
+                        cases.append(v["case"])
+                except Exception:
+                    pass
+        cases += gens[stream](seed, tier, workdir, stream)
+    if stream == "cdedb-read":
+        return lines_cdedb_read(cases, workdir, stream)
+    if stream == "cdedb-pairs":
+        return lines_cdedb_pairs(cases, workdir, stream)
+    if stream == "e2e-cde":
+        return lines_e2e_cde(cases, workdir, stream, binary)
+    if stream == "cli-simple":
+        return lines_cli_simple(cases, workdir, stream, binary)
+    if stream == "cli-malformed":
+        return lines_cli_malformed(cases, workdir, stream, binary)
+    if stream == "cli-fault":
+        return lines_cli_fault(cases, workdir, stream, binary)
     raise RuntimeError("unknown cli stream " + stream)
